@@ -64,6 +64,7 @@ pub fn err_kind(e: &failure::Error) -> String {
                 ParseError::BadSequence(_) => "BadSequence",
                 ParseError::BadHash(_) => "BadHash",
                 ParseError::UnsafeFilename(_) => "UnsafeFilename",
+                ParseError::EmptyFilename(_) => "EmptyFilename",
             };
             format!("ERR {}", k)
         }
